@@ -25,6 +25,7 @@ fn main() {
         "algo" => streams::stream_algo(&opt),
         "shape" => streams::stream_shape(&opt),
         "hist" => streams::stream_hist(&opt),
+        "dend" => streams::stream_dend(&opt),
         "oracle" => oracle::run(&opt),
         _ => { eprintln!("unknown command {}", cmd); 2 }
     };
